@@ -42,7 +42,7 @@ CLAIMED = {
         note='Trusted: global table modelled rely/guarantee (reads return what calc_single wrote), Intern canonicity, listed rewrites. Domain: language int/float widths, nested sizes <= 1 GiB. The host C compiler comparison is not part of the proof.',
         ref='DESIGN.md 5 (C17)'),
     'C18': dict(
-        text='Deductive proof over the real text of simple_id, simple_id_with_align, UIDGenerator::generate_unique_id and the id-assigning match of to_type_id: for every type, the runtime type id decodes (with the masks core/src/meta.capy uses) to the kind, size, alignment and sign/mutability flag of the layout tables; compound ids carry their kind and a fresh index; ids of simple types are injective -- except isize/i64 and usize/u64, a recorded known finding. Unit any_cast adds the `any` clause: cast_into_memory keeps the ORIGINAL source type and its `(_, Ty::Any)` arm stores exactly that type\'s id (4 bytes at offset 0 of the any value).',
+        text='Deductive proof over the real text of simple_id, simple_id_with_align, UIDGenerator::generate_unique_id and the id-assigning match of to_type_id: for every type, the runtime type id decodes (with the masks core/src/meta.capy uses) to the kind, size, alignment and sign/mutability flag of the layout tables; compound ids carry their kind and, as index, the row the type gets in the per-kind reflection table (the number of types of that kind registered before it); ids of simple types are injective -- except isize/i64 and usize/u64, a recorded known finding. Unit any_cast adds the `any` clause: cast_into_memory keeps the ORIGINAL source type and its `(_, Ty::Any)` arm stores exactly that type\'s id (4 bytes at offset 0 of the any value).',
         note='Partial: type-id and any-carries-type clauses only. compile_meta_builtins (the data reflection reads) and core/src/meta.capy are not under contract; the memo lookup of to_type_id (iterator find) is assumed; recursive calls are stubs.',
         ref='DESIGN.md 5 (C18)'),
     'C19': dict(
@@ -62,7 +62,7 @@ CLAIMED = {
         note='Assumed: the indexmap contract (shims/verus/indexmap.rs); T::clone is the identity; generic parameters instantiated at P=Q=U=T (the only use the checker makes); iterator chains of the three observers replaced by shims that take the same closure; the usage protocol "a dependency is only registered on an item that is pending or was never scheduled" is a PRECONDITION of insert/insert_dep (no stale edges) and is not proved about InferenceCtx::finish; extend/insert_deps/pop/pop_all are not under contract.',
         ref='DESIGN.md 5 (C26)'),
     'C27': dict(
-        text='Deductive proof over the real text of add_part and MangledPartKind::to_code: add_part appends exactly <decimal length><text>, with an underscore put in front of texts that start with a digit or an underscore; this per-part encoding is proved injective and uniquely decodable when followed by anything (prefix-freeness lemma), and kind letters are pairwise different upper-case letters.',
+        text='Deductive proof over the real text of add_part and MangledPartKind::to_code: add_part appends exactly <decimal length><text>, with an underscore put in front of texts that start with a digit or an underscore; this per-part encoding is proved injective and uniquely decodable when followed by anything (prefix-freeness lemma), and kind letters are pairwise different upper-case letters. The descriptors built by create_mangled_for_naive_global / _lambda are the own part followed by EVERY part passed on by the caller (generic ids, comptime indices): nothing that tells two definitions apart is dropped.',
         note='Partial: the list of parts (create_mangled_for_* iterator chains), the table-of-contents assembly in create_mangled_for_file and FileName::get_components (which maps `.` to `-`: `a.b/` and `a-b/` still collide) are not under contract. Assumed: usize::to_string is a digits-only decimal text without leading zero (axioms D1-D3); part texts are ASCII.',
         ref='DESIGN.md 5 (C27)'),
 }
